@@ -162,6 +162,10 @@ def gen_jobs(ctx):
         big = [(i * 2654435761 + 12345) % (1 << 52) | (1023 << 52) for i in range(160000)]
         jobs.append({"format": "fb", "compression": comp, "eps": 2, "big": True, "attrs": [{"name": "a0", "dtype": "float64", "shape": [400, 400]}],
                      "examples": [[{"pres": "C", "bits": big}], [{"pres": "C", "bits": big[::-1]}]]})
+    for fmt, comp in (("npz", "ZIP"), ("tfrec", "GZIP")) + ((("npz", ""), ("tfrec", ""), ("tfrec", "ZLIB")) if ctx.tier == "thorough" else ()):
+        big = [(i * 2246822519 + 7) % (1 << 52) | (1022 << 52) for i in range(160000)]
+        jobs.append({"format": fmt, "compression": comp, "eps": 2, "big": True, "attrs": [{"name": "a0", "dtype": "float64", "shape": [400, 400]}],
+                     "examples": [[{"pres": "C", "bits": big}], [{"pres": "F", "bits": big[::-1]}]]})
     for j in jobs:
         rs = list(READERS[j["format"]])
         if j["format"] == "npz" and any(a["dtype"] in ("bytes", "str") for a in j["attrs"]):
@@ -434,7 +438,7 @@ def npz_model_check(jobs, res, broken, stats):
     nl = lambda l: "[" + "; ".join(f"{x}%nat" for x in l) + "]"  # noqa: E731
     lines, where = [], []
     for ji, (job, r) in enumerate(zip(jobs, res)):
-        if job["format"] != "npz" or r.get("write_error") or not isinstance(r.get("read", {}).get("sync"), list):
+        if job["format"] != "npz" or job.get("big") or r.get("write_error") or not isinstance(r.get("read", {}).get("sync"), list):
             continue
         got = r["read"]["sync"]
         if len(got) != len(job["examples"]):
